@@ -18,6 +18,7 @@ type Case struct {
 	Sched  []int // transaction index per scheduler step; afterwards the rest is drained round-robin
 	Drain  int   // max drain rounds (default 60)
 	OracleOnly string // non-empty: the case is outside Model L for this reason whatever happens
+	Segment bool // values in a separate segment (then the case is oracle-only: Model L is the in-node placement)
 }
 
 type Event struct {
@@ -157,11 +158,14 @@ func KeepTracker() (bool, error) {
 
 // Run executes the case on the real code and buffers the protocol lines.
 func Run(c Case) (*Outcome, error) {
-	w, err := NewWorld(c.Slot, true, c.Keys, func(int) int { return c.Val })
+	w, err := NewWorldPlaced(c.Slot, true, c.Keys, func(int) int { return c.Val }, c.Segment)
 	if err != nil {
 		return nil, err
 	}
 	o := &Outcome{W: w, Forced: c.OracleOnly}
+	if c.Segment && o.Forced == "" {
+		o.Forced = "value-placement"
+	}
 	for i, pr := range c.Progs {
 		p, err := w.Spawn(i, pr)
 		if err != nil {
@@ -202,9 +206,9 @@ func Run(c Case) (*Outcome, error) {
 		hint := p.OwnAfter
 		if from == "begin" {
 			hint = p.extraPages()
-			if len(p.Added) > 0 {
-				o.Split = true
-			}
+		}
+		if len(p.Added) > 0 { // also when a merge replay splits a node that filled up meanwhile
+			o.Split = true
 		}
 		if (from == "install" || (from != "begin" && p.Done())) && p.Result() == "ok" && !contains(o.Order, p.Idx) {
 			o.Order = append(o.Order, p.Idx)
@@ -313,8 +317,9 @@ func (p *Proc) extraPages() []int {
 //                      node, i.e. an item changes page
 //   successor-alias  : (legacy, before repo commit a8e6b837) on top of that the tracker registered the SUCCESSOR as
 //                      the removed item
-//   slot-alias       : a transaction that added/removed an item and tracks other items too went through a
+//   slot-alias       : a transaction that added/removed an item and tracks other items (other keys) too went through a
 //                      refetch: the tracker's item pointers alias the node's slot array, which the add/remove shifted
+//   value-placement  : the store keeps values in a separate segment (Model L is the in-node placement)
 func (o *Outcome) OutOfScope() string {
 	if o.Panicked {
 		return "panic"
@@ -327,7 +332,14 @@ func (o *Outcome) OutOfScope() string {
 	}
 	for _, p := range o.Procs {
 		structural := false
+		keys := map[int]bool{}
 		for i, r := range p.Results {
+			if r.OK {
+				keys[p.Prog.Ops[i].Key] = true
+				if p.Prog.Ops[i].Kind == "updf" {
+					keys[p.Prog.Ops[i].Src] = true
+				}
+			}
 			k := p.Prog.Ops[i].Kind
 			if r.Alias != 0 && !p.Aborted {
 				return "successor-alias"
@@ -345,7 +357,7 @@ func (o *Outcome) OutOfScope() string {
 				plocks++
 			}
 		}
-		if structural && len(p.Prog.Ops) > 1 && plocks >= 2 {
+		if structural && len(keys) > 1 && plocks >= 2 {
 			return "slot-alias"
 		}
 	}
